@@ -488,7 +488,7 @@ def run_family(item, A, vs, kdims, Ks, wants, etol_rel, detect_ok, ms, hss=None,
                     msg = check_scaled(Qd, Hd, np.asarray(Q1.to_dense()), np.asarray(H1.to_dense()), sc, dt, A_t,
                                        tr[0]["fin"]["steps"] if len(tr) == 1 else None,
                                        tr1[0]["fin"]["steps"] if len(tr1) == 1 else None, kdims[0], m, jmax,
-                                       steps_ok=(detectable or dyadic) and not count_bad
+                                       steps_ok=(detectable or tight) and not count_bad
                                        and not kf.null_start(hss[0], A_t), tight=tight, tq=vtol)
                     if msg:
                         viol.append(mk_viol(item, vclause, msg[0], m, msg[1], n, kdims[0], False, "arnoldi", dt, tol))
@@ -573,7 +573,7 @@ def run_family(item, A, vs, kdims, Ks, wants, etol_rel, detect_ok, ms, hss=None,
                     res = res[0] if isinstance(res, tuple) else res
                     if Q1A is not None and Q1A.shape == QA.shape and H1A.shape == HA.shape:
                         msg = check_scaled(QA[b], HA[b], Q1A[b], H1A[b], sc, dt, A_t, bsteps, s1, kdims[b], m, jmax,
-                                           steps_ok=b == 0 and (detectable or dyadic) and known and not cb
+                                           steps_ok=b == 0 and (detectable or tight) and known and not cb
                                            and not any(kf.null_start(h, A_t) for h in hss), tight=tight, tq=vtol)
                         if msg:
                             res = list(res) + [(vclause, msg[0], msg[1])]
